@@ -284,6 +284,8 @@ pub trait VersionedSerialize: Sized {
     
     /// Serialize with version information
     fn serialize_versioned<O: DataOutput>(&self, output: &mut O) -> Result<()> {
+        // Version header, read back by deserialize_versioned
+        Self::current_version().serialize(output)?;
         let mut manager = VersionManager::new(Self::current_version());
         self.serialize_with_manager(&mut manager, output)
     }
@@ -476,10 +478,7 @@ impl VersionedSerializer {
     pub fn serialize_to_bytes<T: VersionedSerialize>(&self, value: &T) -> Result<Vec<u8>> {
         let mut output = crate::io::VecDataOutput::new();
         
-        // Write version header
-        T::current_version().serialize(&mut output)?;
-        
-        // Serialize the object
+        // Serialize the object (serialize_versioned writes the version header)
         value.serialize_versioned(&mut output)?;
         
         Ok(output.into_vec())
